@@ -231,7 +231,11 @@ def r2(p, rep):
             rep.add("C09.R2", f"{outer.qualname}:closure:op-arg{i}", f"{f.module.rel}:{c.lineno}", ok, f"argument {i} of the primitive (`{norm(c.args[i])}`) is the closure's parameter `{params[i]}`" if ok else f"argument {i} of the primitive (`{norm(c.args[i])}`) derives from {sorted(org)} instead of `{params[i]}`: the in-place primitive would write into / read from the wrong tensor")
     # (c) update_at_ravelled / elementary update_at: operand 0 derives from tensors[0]
     for qual, mod in (("update_at_ravelled.inner", "adapter.decomposednamedtensor_from_classical"), ("update_at.update_at", "adapter.elementary_from_classical")):
-        f = p.func(qual, mod)
+        f0 = p.func(qual, mod)
+        import types as _types
+
+        # small helpers (`tensor = _flatten(classical, tensor, expr)`) are written out first
+        f = _types.SimpleNamespace(node=common.inline_lexical_helpers(f0.node), qualname=f0.qualname, module=f0.module, params=f0.params)
         calls = [n for n in walk_no_nested(f.node) if isinstance(n, ast.Call) and isinstance(n.func, ast.Name) and n.func.id == "op"]
         if not calls:
             raise AnalysisError(f"unrecognised idiom: no op(...) call in {qual}")
@@ -256,6 +260,12 @@ def _derives_from_first_tensor(f, expr, depth=0):
             e = e.value
         if isinstance(e, ast.Name) and e.id != star:
             ds = [n.value for n in walk_no_nested(f.node) if isinstance(n, ast.Assign) and any(isinstance(t, ast.Name) and t.id == e.id for t in n.targets)]
+            # `a, b = tensors[0], tensors[-1]`
+            for n in walk_no_nested(f.node):
+                if isinstance(n, ast.Assign) and isinstance(n.value, ast.Tuple):
+                    for t in n.targets:
+                        if isinstance(t, ast.Tuple) and len(t.elts) == len(n.value.elts):
+                            ds += [v for te, v in zip(t.elts, n.value.elts) if isinstance(te, ast.Name) and te.id == e.id]
             return bool(ds) and all(base(d) for d in ds) and depth < 6
         return isinstance(e, ast.Subscript) and isinstance(e.value, ast.Name) and e.value.id == star and isinstance(e.slice, ast.Constant) and e.slice.value == 0
 
